@@ -439,6 +439,10 @@ def corpus():
     mk('local-type-shadows-glob-renamed', {'a/src/lib.rs': A, 'b/src/lib.rs': 'use a::*;\n#[typeshare]\npub struct A2 { pub z: u8 }\n#[typeshare]\npub struct B1 { pub f: A2, pub g: Vec<A2>, pub h: A1 }\n'}, reps=4, mix=True)
     mk('local-type-shadows-glob-renamed-two-files', {'a/src/lib.rs': A, 'b/src/lib.rs': 'use a::*;\n#[typeshare]\npub struct B0 { pub h: A3 }\n',
                                                      'b/src/own.rs': '#[typeshare]\npub struct A2 { pub z: u8 }\n#[typeshare]\n#[serde(tag = "t", content = "c")]\npub enum E1 { V0(A2), V1 { f: Option<A2> } }\n'}, reps=4, mix=True)
+    # crate directories whose name contains a dot (a version suffix): the file is named after the WHOLE crate name plus the extension
+    # (seeded C14_f: Path::with_extension replaced what follows the last dot, acme_proto_0.ts for both crates)
+    mk('dotted-crate-names', {'acme-proto-0.3/src/lib.rs': '#[typeshare]\npub struct P3 { pub x: u8 }\n', 'acme-proto-0.4/src/lib.rs': '#[typeshare]\npub struct P4 { pub x: u8 }\n',
+                              'v1.2.3/src/lib.rs': '#[typeshare]\npub struct V1 { pub x: u8 }\n', 'b/src/lib.rs': '#[typeshare]\npub struct B1 { pub x: u8 }\n'})
     mk('generic-param-not-a-reference', {'a/src/lib.rs': '#[typeshare]\npub struct U { pub x: u8 }\n', 'b/src/lib.rs': 'use a::U;\n#[typeshare]\npub struct B1<U> { pub f: U }\n'})
     return out
 
